@@ -172,9 +172,15 @@ def candles_for(rng, n, regime=None):
     return cs, regime
 
 
+# parameters whose non-default values switch a different code path on (not just a different length)
+DIRECTED = {"ChaikinOscillator": [[("window", "1")], [("window", "5")]],
+            "PriceChannelStrategy": [[("sigma", "0.5")]],
+            "AverageDirectionalIndex": [[("period1", "2")]]}
+
+
 def configs(t, rng, n_random):
-    """default + n_random random configurations (as set lists)"""
-    out = [[]]
+    """default + directed + n_random random configurations (as set lists)"""
+    out = [[]] + [list(x) for x in DIRECTED.get(t["config"], [])]
     for _ in range(n_random):
         out.append(random_config(t, rng, 1 + rng.below(3)))
     return out
